@@ -27,7 +27,10 @@ fn violation_extra(g: &Grammar, k: usize, rng: &mut Rng) -> String {
     let some_nt = g.nts[rng.below(g.nts.len())].name.clone();
     let some_t = if g.terms.is_empty() { "Nope".to_string() } else { g.terms[rng.below(g.terms.len())].name.clone() };
     let other_t = if g.terms.is_empty() { "Nope".to_string() } else { g.terms[rng.below(g.terms.len())].name.clone() };
-    match rng.below(21) {
+    match rng.below(24) {
+        21 => format!("struct lowa{k}\n\nenum lowb{k} {{\n    A\n}}\n\nstruct lowc{k}"),
+        22 => format!("enum lowd{k} {{\n    A\n}}\n\nstruct lowe{k} {{\n    a: {some_nt}\n}}"),
+        23 => format!("struct lowf{k}\n\nstruct Fine{k}\n\nstruct lowg{k}\n\nstruct {some_nt}"),
         // several violations of the SAME kind inside ONE scope: "which of them is reported" is
         // where an order dependence hides
         16 => format!("enum Dups{k} {{\n    Lit\n    Neg\n    Lit\n    Neg\n    Add\n    Add\n}}"),
@@ -85,6 +88,15 @@ fn erroneous(rng: &mut Rng) -> TextItem {
             3 if !g.terms.is_empty() => {
                 let i = rng.below(g.terms.len());
                 g.terms[i].name = format!("lower_t{k}");
+                if rng.chance(1, 2) {
+                    // a second badly capitalised top-level name of another kind
+                    if g.terms.len() > 1 && rng.chance(1, 2) {
+                        let j = (i + 1) % g.terms.len();
+                        g.terms[j].name = format!("lower_u{k}");
+                    } else {
+                        g.token_enum = format!("tokens{k}");
+                    }
+                }
             }
             _ => opts.extras.push(violation_extra(&g, k, rng)),
         }
